@@ -153,6 +153,10 @@ impl<'a> Headers<'a> {
     }
 
     pub fn set_transfer_encoding_chunked(&mut self) {
+        // already declared (by an earlier call or by an added field): a second `chunked` would announce a second layer
+        if self.chunked {
+            return;
+        }
         self.chunked = true;
         self.headers.push((
             Cow::Borrowed(Self::TRANSFER_ENCODING),
